@@ -662,19 +662,30 @@ func c02R4(c *Ctx) {
 	// rule without a body
 	if pr := p.LangFunc("(*Parser).parseRule"); pr != nil {
 		okP := false
+		otherBody := ""
 		allInstrs(pr, func(in ssa.Instruction) {
 			st, ok := in.(*ssa.Store)
 			if !ok {
 				return
 			}
 			if sf, ok := fieldOfAddr(st.Addr); ok && sf.Is("Rule", "Body") {
-				if p.Render(st.Val) == "&lang.StatementPrint{}" {
+				r := p.Render(st.Val)
+				switch {
+				case r == "&lang.StatementPrint{}":
 					g := guardsAt(p, pr, st.Block())
 					okP = g["p.current.Tag != LCurly"]
+					// whatever the kind of rule: nothing else decides that the body is the bare print
+					extra := extraGuardsBetween(p, pr, pr.Blocks[0], st.Block(), "p.current.Tag", "#1 == nil", "#1 != nil")
+					if len(extra) > 0 {
+						otherBody = "the bare print is given only under {" + strings.Join(extra, " && ") + "}"
+					}
+				case strings.Contains(r, "(*lang.Parser).block(p)#0"):
+				default:
+					otherBody = "a rule is given the body " + abbrev(r, 80)
 				}
 			}
 		})
-		c.check(okP, "R4", "bodyless-rule-prints", p.Pos(pr.Pos()), "a rule without `{` gets a print statement without arguments", "a rule without a body is not given `print` with no arguments")
+		c.check(okP && otherBody == "", "R4", "bodyless-rule-prints", p.Pos(pr.Pos()), "a rule without `{` gets a print statement without arguments, whatever its kind", "a rule without a body is not given `print` with no arguments in every case ("+otherBody+"): BEGIN / END / BEGINFILE / ENDFILE without a body print $ like a pattern rule does")
 	}
 }
 
